@@ -694,7 +694,13 @@ func (c *client) loopRead() {
 		}
 
 		verifPause("client.read.pair", c)
-		req := <-c.processingReqs
+		var req *simpleRequest
+		select {
+		case req = <-c.processingReqs:
+		case <-c.quit:
+			// a reply without a request: do not keep Start and Stop waiting.
+			return
+		}
 		c.handleResp(req, resp)
 	}
 }
